@@ -1,5 +1,8 @@
 //! Kani harnesses on the real srtla-core / srtla-protocol crates (path dependencies on /repo).
 #![allow(unused_imports, dead_code)]
+#[cfg(kani)] mod util;
 #[cfg(kani)] mod stubs;
 #[cfg(kani)] mod proto;
 #[cfg(kani)] mod cc;
+#[cfg(kani)] mod lemmas;
+#[cfg(kani)] mod sel;
